@@ -21,7 +21,13 @@ static const char *const ctr_names[VF_NCTR] = {
     "invalid_inputs_with_successful_path_of_3plus_calls", "verify_vs_reference_disagreements_left_to_C02"
 };
 
-typedef struct { int8_t sp, last, done; int8_t st[13]; } app;     /* last: 0 none, 'O', 'A', 'v' (other value) */
+#define APPMAX 260
+typedef struct { int16_t sp; int8_t last, done; int8_t st[APPMAX]; } app;     /* last: 0 none, 'O', 'A', 'v' (other value) */
+#define AHEAD offsetof(app, st)
+static int KFS = 16;            /* stack entries stored in the visited-set key (>= nesting of the input + 1) */
+static inline size_t akey_size(void) { return AHEAD + (size_t) KFS; }
+static inline void apack(uint8_t *dst, const app *a) { memcpy(dst, a, AHEAD); memcpy(dst + AHEAD, a->st, (size_t) KFS); }
+static inline void aunpack(app *a, const uint8_t *src) { memset(a, 0, sizeof *a); memcpy(a, src, AHEAD); memcpy(a->st, src + AHEAD, (size_t) KFS); }
 
 enum { S_NEXT, S_INTO_OBJ, S_INTO_ARR, S_LEAVE_OBJ, S_LEAVE_ARR, S_RAW, S_FIELD_A, S_FIELD_B, S_FIELD_E, S_FIELD_AB, S_NOPS };
 static const char *const opname[S_NOPS] = { "next", "go_into_object", "go_into_array", "leave_object", "leave_array", "get_raw", "field(\"a\")", "field(\"b\")",
@@ -66,8 +72,8 @@ static bool enabled(const app *a, int op)
     int top = a->sp ? a->st[a->sp - 1] : 0;
     switch (op) {
     case S_NEXT: return a->sp > 0;
-    case S_INTO_OBJ: return a->sp == 0 ? KIND == VK_OBJ : (a->last == 'O' && a->sp < 13);
-    case S_INTO_ARR: return a->sp == 0 ? KIND == VK_ARR : (a->last == 'A' && a->sp < 13);
+    case S_INTO_OBJ: return a->sp == 0 ? KIND == VK_OBJ : (a->last == 'O' && a->sp < KFS - 1);
+    case S_INTO_ARR: return a->sp == 0 ? KIND == VK_ARR : (a->last == 'A' && a->sp < KFS - 1);
     case S_LEAVE_OBJ: return top == 'O';
     case S_LEAVE_ARR: return top == 'A';
     case S_RAW: return a->sp > 0 && (a->last == 'O' || a->last == 'A');
@@ -156,6 +162,8 @@ static void report(size_t from, int op, const char *sig, const char *why, const 
 
 static void explore_config(void)
 {
+    /* key width: inputs with few BEGIN bytes cannot nest deeply */
+    { size_t begins = 0; for (size_t i = 0; i < INLEN && begins < APPMAX; i++) if (IN[i] == 0x40 || IN[i] == 0x42) begins++; KFS = begins + 2 <= 16 ? 16 : APPMAX; }
     bool V = fresh_verify();
     int ref = vf_ref_decode(IN, INLEN, KIND, MD, NULL);
     if ((ref == VR_OK) != V) vf_count(CT_REF_DISAGREES, 1);
@@ -173,21 +181,21 @@ static void explore_config(void)
         vf_live_free(&L);
         return;
     }
-    size_t isz = vf_snap_size(MD), rec = isz + sizeof(app);
+    size_t isz = vf_snap_size(MD), rec = isz + akey_size();
     if (rec != SET_REC) { if (SET_REC) vf_set_free(&SET); vf_set_init(&SET, rec); SET_REC = rec; } else vf_set_clear(&SET);
     uint8_t *key = (uint8_t *) alloca(rec);
     vf_snap snap;
     app a0;
     memset(&a0, 0, sizeof a0);
     vf_snap_save(&snap, &L);
-    memcpy(key, &snap, isz); memcpy(key + isz, &a0, sizeof a0);
+    memcpy(key, &snap, isz); apack(key + isz, &a0);
     bool isnew;
     vf_set_insert(&SET, key, &isnew);
     cur_in_bfs = 1;
     bool longpath = false;
     for (size_t s = 0; s < SET.n; s++) {
         app as;
-        memcpy(&as, vf_set_at(&SET, s) + isz, sizeof as);
+        aunpack(&as, vf_set_at(&SET, s) + isz);
         for (int op = 0; op < S_NOPS; op++) {
             if (!enabled(&as, op)) continue;
             memcpy(&snap, vf_set_at(&SET, s), isz);
@@ -225,7 +233,7 @@ static void explore_config(void)
             }
             if ((op == S_LEAVE_OBJ || op == S_LEAVE_ARR) && as.last) vf_count(CT_EARLY_LEAVE, 1);
             vf_snap_save(&snap, &L);
-            memcpy(key, &snap, isz); memcpy(key + isz, &a, sizeof a);
+            memcpy(key, &snap, isz); apack(key + isz, &a);
             size_t idx = vf_set_insert(&SET, key, &isnew);
             if (isnew) {
                 if (idx >= PCAP) { PCAP = PCAP ? PCAP * 2 : 4096; PARENT = (uint32_t *) vf_xrealloc(PARENT, PCAP * sizeof *PARENT); OPOF = (uint8_t *) vf_xrealloc(OPOF, PCAP); }
@@ -239,10 +247,11 @@ static void explore_config(void)
     vf_count(CT_STATES, SET.n);
     vf_max(CT_MAXSTATES, SET.n);
     if (vf_want_sample() && SET.n > 25) {
-        uint8_t h[64];
-        int n = history_of(SET.n - 1, h, 64);
+        static uint8_t h[4100];
+        int n = history_of(SET.n - 1, h, 4096);
+        if (n > 24) n = 24;
         vf_str s = { 0 };
-        vf_str_printf(&s, "input %s (verify %s, max_depth %d): %zu strategy states; one strategy:", INLABEL, V ? "accepts" : "rejects", MD, SET.n);
+        vf_str_printf(&s, "input %.200s (verify %s, max_depth %d): %zu strategy states; one strategy:", INLABEL, V ? "accepts" : "rejects", MD, SET.n);
         for (int i = 0; i < n; i++) vf_str_printf(&s, " %s", opname[h[i]]);
         vf_sample("%s", s.s);
         vf_str_free(&s);
@@ -320,6 +329,44 @@ static void towers(void)
             }
 }
 
+/* 254..256 nested arrays (the limit is 255), with an element after each inner array; root array and object field */
+static void deep_towers(void)
+{
+    static uint8_t t[2048];
+    char label[100];
+    static const int ks[] = { 100, 127, 128, 129, 254, 255, 256 };
+    for (size_t ki = 0; ki < sizeof ks / sizeof ks[0]; ki++)
+        for (int variant = 0; variant < 2; variant++) {
+            if (!take()) continue;
+            int k = ks[ki];
+            size_t n = 0;
+            if (variant) { t[n++] = 0x40; t[n++] = 0x14; t[n++] = 1; t[n++] = 'a'; }
+            for (int i = 0; i < k; i++) t[n++] = 0x42;
+            t[n++] = 0x10; t[n++] = 1;
+            for (int i = 0; i < k; i++) { t[n++] = 0x43; if (i < k - 1) t[n++] = 0x44; }
+            if (variant) { t[n++] = 0x14; t[n++] = 1; t[n++] = 'b'; t[n++] = 0x45; t[n++] = 0x41; }
+            snprintf(label, sizeof label, "tower: %d nested arrays%s", k, variant ? " in an object field" : "");
+            vf_count(CT_TOWERS, 1);
+            IN = t; INLEN = n; INLABEL = label; KIND = variant ? VK_OBJ : VK_ARR; MD = 2;
+            vf_count(CT_INPUTS, 1);
+            explore_config();
+        }
+}
+static void on_doc_big(vf_gen *g, void *u)
+{
+    (void) u;
+    static uint8_t mask[200000];
+    if (vf_deadline_passed()) { g->stop = true; return; }
+    if (g->doc.len > sizeof mask) return;
+    if (take()) { vf_count(CT_DOCS, 1); process_input(g->doc.bytes, g->doc.len, vf_shape(&g->doc), g->doc.root_kind); }
+    vf_mask_long_payloads(&g->doc, mask);
+    vf_mut_mask = mask;
+    static uint8_t *big_scratch;
+    if (!big_scratch) big_scratch = (uint8_t *) vf_xmalloc(200100);
+    vf_mutants(g->doc.bytes, g->doc.len, big_scratch, 200100, on_mut, &g->doc);
+    vf_mut_mask = NULL;
+}
+
 static int L_HOSTILE, L_CORE, N_DOC;
 static void worker(int w, int W, uint64_t start)
 {
@@ -328,6 +375,19 @@ static void worker(int w, int W, uint64_t start)
     mscratch = (uint8_t *) vf_xmalloc(4096);
     DEPTHS = depths3; NDEPTHS = 3;
     towers();
+    deep_towers();
+    /* values / names that need the 4-byte length prefix, and all their one-deviation mutants outside the payload interior */
+    {
+        static const int clsb[] = { LC_INT8, LC_STR32K, LC_BYT32K, LC_OBJ, LC_ARR };
+        static vf_gen gb;
+        DEPTHS = depths1; NDEPTHS = 1;
+        for (int root = VK_OBJ; root <= VK_ARR; root++) {
+            memset(&gb, 0, sizeof gb);
+            gb.root_kind = root; gb.max_tokens = 2; gb.classes = clsb; gb.nclasses = 5; gb.names = vf_names_abc; gb.nnames = 2; gb.cb = on_doc_big;
+            vf_gen_run(&gb);
+        }
+        DEPTHS = depths3; NDEPTHS = 3;
+    }
     vf_tokenum e;
     for (int frame = 1; frame <= 2; frame++) {
         memset(&e, 0, sizeof e);
@@ -358,7 +418,7 @@ static void replay_main(void)
     char *t = vf_replay_load(vf_g.replay);
     char *root = vf_replay_get(t, "root"), *md = vf_replay_get(t, "max_depth"), *hex = vf_replay_get(t, "input_hex"), *ops = vf_replay_get(t, "ops");
     if (!root || !md || !hex || !ops) vf_die("replay file lacks root/max_depth/input_hex/ops");
-    static uint8_t bytes[8192];
+    static uint8_t bytes[300000];
     long n = vf_unhex(bytes, sizeof bytes, hex);
     if (n < 0) vf_die("bad input_hex");
     IN = bytes; INLEN = (size_t) n; INLABEL = "replay"; KIND = !strcmp(root, "object") ? VK_OBJ : VK_ARR; MD = atoi(md);
@@ -388,11 +448,11 @@ int main(int argc, char **argv)
     if ((e = getenv("VERIF_N"))) N_DOC = atoi(e);
     if (vf_g.replay) replay_main();
     int deaths = vf_run_workers(worker);
-    static char bound[900];
+    static char bound[1300];
     snprintf(bound, sizeof bound,
              "inputs: every framed sequence of <= %d tokens over the %d-token hostile alphabet (max_depth 1,2,3) and of <= %d tokens over the %d-token core "
              "alphabet (max_depth 2), object- and array-framed; every valid document with <= %d value tokens over names {a, b, a 128-byte name} and ALL its one-deviation mutants (interior bytes of the long name thinned out) under both init "
-             "kinds; towers at and one past max_depth 1..3. Per input: fixpoint over ALL adaptive strategies built from next, 4 lookups, enter on a reported "
+             "kinds; towers at and one past max_depth 1..3; 100..256 nested arrays; documents of <= 2 values over {int, 32768-byte string, 32768-byte bytes, containers} with their mutants. Per input: fixpoint over ALL adaptive strategies built from next, 4 lookups, enter on a reported "
              "container, get_raw on a reported container, leave of the innermost entered container",
              L_HOSTILE, VF_NTOK_HOSTILE, L_CORE, VF_NTOK_CORE, N_DOC);
     static const char *const assumptions[] = {
